@@ -14,6 +14,8 @@ multiset comparison.
     fail_exc      raises                   failed        yes
     fail_last     passes, last stmt fails  failed        yes
     all_skipped   block +SKIP first        skipped       no
+    inline_skipped_after_directive / req_after_directive
+                  a harmless block directive first, then every statement skipped     skipped   no
     req_unmet     block +REQUIRES(unmet)   skipped       no
     partly        one stmt inline +SKIP    passed        yes
     expected_exc  traceback want           passed        yes
@@ -30,7 +32,7 @@ The inventory is a function of (case, style, options) only.
 
 DISABLE_PATTERNS = ['# DISABLE_DOCTEST', '# UNSTABLE', '# FAILING', '# SCRIPT', '# SLOW_DOCTEST']
 BASE_KINDS = ['pass', 'fail_out', 'fail_exc', 'fail_last', 'all_skipped', 'req_unmet', 'partly', 'expected_exc', 'comment_only',
-              'disabled', 'pass', 'fail_out']
+              'disabled', 'pass', 'fail_out', 'inline_skipped_after_directive', 'req_after_directive']
 OPTION_KINDS = ['needs_ellipsis', 'needs_nw', 'needs_iw']
 MERGEABLE = ('pass', 'fail_out', 'fail_exc', 'fail_last', 'expected_exc')
 
@@ -52,6 +54,13 @@ def block_lines(kind, tid, ind, pattern=None):
     elif kind == 'req_unmet':
         L += ['{}>>> # xdoctest: +REQUIRES(env:VP_NEVER_SET_VARIABLE==1)'.format(ind), t, "{}>>> print('never')".format(ind),
               '{}wrong'.format(ind)]
+    elif kind == 'inline_skipped_after_directive':
+        # opens with a block directive that skips nothing; every statement is then skipped inline
+        L += ['{}>>> # xdoctest: +IGNORE_WHITESPACE'.format(ind), t + '  # xdoctest: +SKIP',
+              "{}>>> print('never')  # xdoctest: +SKIP".format(ind), '{}wrong'.format(ind)]
+    elif kind == 'req_after_directive':
+        L += ['{}>>> # xdoctest: +ELLIPSIS'.format(ind), '{}>>> # xdoctest: +REQUIRES(env:VP_NEVER_SET_VARIABLE==1)'.format(ind), t,
+              "{}>>> print('never')".format(ind), '{}wrong'.format(ind)]
     elif kind == 'partly':
         L += [t, "{}>>> print('skipped stmt')  # xdoctest: +SKIP".format(ind), '{}wrong'.format(ind), "{}>>> print('ran')".format(ind),
               '{}ran'.format(ind)]
@@ -83,7 +92,7 @@ def outcome_of(kind, options=()):
         return 'passed', True
     if kind in ('fail_out', 'fail_exc', 'fail_last'):
         return 'failed', True
-    if kind in ('all_skipped', 'req_unmet', 'comment_only'):
+    if kind in ('all_skipped', 'req_unmet', 'comment_only', 'inline_skipped_after_directive', 'req_after_directive'):
         return 'skipped', False
     if kind == 'disabled':
         return 'failed', True            # only when named explicitly
